@@ -17,7 +17,34 @@ func top(fn *ssa.Function) *ssa.Function {
 	return fn
 }
 
-func (c *Ctx) Owner(s *Stmt) string { return c.Key(top(s.Fn)) }
+// Owner: the operation a statement belongs to — the outermost function that creates the builder, or, when that
+// is a private helper (unexported plain function that no rule names) with a single calling operation, that caller.
+// Extracting statements into such a helper therefore does not change who "owns" them.
+func (c *Ctx) Owner(s *Stmt) string { return c.Key(c.effectiveTop(top(s.Fn), 0)) }
+
+var namedAnchors = map[string]bool{fnDeliver: true, fnDeadLetter: true}
+
+func (c *Ctx) effectiveTop(f *ssa.Function, depth int) *ssa.Function {
+	if depth > 3 || f.Signature.Recv() != nil || f.Object() == nil || f.Object().Exported() || namedAnchors[c.Key(f)] {
+		return f
+	}
+	var owner *ssa.Function
+	for _, ci := range c.callersOf(f) {
+		t := c.effectiveTop(top(ci.Parent()), depth+1)
+		if c.FnInControl(t) {
+			continue
+		}
+		if owner == nil {
+			owner = t
+		} else if owner != t {
+			return f
+		}
+	}
+	if owner == nil {
+		return f
+	}
+	return owner
+}
 
 // allStmts includes nested eager-load statements.
 func (es *entShape) All() []*Stmt {
